@@ -109,9 +109,9 @@ NAMES = ['motion', 'set_title', 'new', 'destroyed', 'commit']
 
 def gen_expressions(tier):
     """deterministic enumeration of expression ASTs (all atom kinds at every level)"""
-    OBJS = [None, ('type', 'wl_pointer'), ('type', 'xdg_*'), ('id', 7), ('idgen', 7, 2), ('idgen', 12, 27),
+    OBJS = [None, ('type', 'wl_pointer'), ('type', 'xdg_*'), ('type', 'wl_*_touch'), ('type', '*_popup'), ('id', 7), ('idgen', 7, 2), ('idgen', 12, 27),
             ('list', [('type', 'wl_pointer'), ('type', 'wl_touch')], [('id', 7)]), ('list', [('id', 7), ('id', 9)], []), ('list', [], [('type', 'wl_*')])]
-    NMS = [None, 'motion', 'set_*', 'new', 'destroyed', ('list', ['motion', 'commit'], []), ('list', ['*'], ['motion'])]
+    NMS = [None, 'motion', 'set_*', 'set_*_title', '*tion', 'new', 'destroyed', ('list', ['motion', 'commit'], []), ('list', ['*'], ['motion'])]
     VALS = [None, ('int', 0), ('int', 7), ('int', -3), ('float', 1.5), ('float', 7.0), ('str', 'hi there'), ('str', ''), ('label', 'pressed'), ('label', 'wl_pointer'), ('label', 'wl_*'), ('nil',)]
     ITEMS = [(n, v) for n in (None, 'x', 's*') for v in VALS if not (n is None and v is None)]
     ITEMS += [('list', [(None, ('int', 5)), (None, ('nil',))], []), ('list', [('x', ('int', 0)), ('y', ('int', 0))], []), ('list', [(None, ('label', 'pressed'))], [('x', None)])]
@@ -144,7 +144,7 @@ def gen_expressions(tier):
     for i in range(0, len(pats), 23):
         exprs.append(([], [pats[i]]))
     if tier == 'quick':
-        exprs = exprs[::4]
+        exprs = exprs[::6]
     return exprs
 
 
@@ -169,6 +169,8 @@ def _build_message(ctx, e, max_args):
                 break
         return ts or TYPES[:1]
     tpool = pick_types()
+    if any('*' in p[:-1] for p in men['types'] | men['labels']):
+        tpool = list(TYPES)
     counter = [0]
 
     def obj(tag, allow_none_type=False, allow_unresolved=False):
@@ -187,6 +189,8 @@ def _build_message(ctx, e, max_args):
         if not any(R.glob(p, n) for p in men['names']) and n not in ('new', 'destroyed'):
             npool.append(n)
             break
+    if any('*' in p[:-1] for p in men['names']):
+        npool = [n for n in NAMES if n not in ('new', 'destroyed')]
     name = ctx.choose(npool or NAMES[:1], 'name')
     kinds = set()
     for k in men['kinds']:
@@ -306,6 +310,35 @@ def variants(ctx, case):
     ctx.check('`%s` means the same as `%s`' % (v, text), got == base)
 
 
+def _ref_glob(p, t):
+    """regex-free reference: `*` matches any run of characters"""
+    if p == '':
+        return t == ''
+    if p[0] == '*':
+        return any(_ref_glob(p[1:], t[i:]) for i in range(len(t) + 1))
+    return t != '' and p[0] == t[0] and _ref_glob(p[1:], t[1:])
+
+
+WILD_PATTERNS = ['a*', '*a', 'a*b', 'ab*ab', 'a*b*c', '*', 'a**b', 'ab*b', 'a*a', '*a*', 'aa*a', 'a*aa', 'abc', '', 'a_*_b', 'wl_*_surface', 'x*x']
+
+
+def wildcards(ctx, case):
+    """`*` inside a word matches any run of characters (incl. the empty run, and never overlapping prefix/suffix)"""
+    from core import matcher
+    p = case
+    alpha = sorted(set(c for c in p if c != '*')) or ['a']
+    if len(alpha) == 1:
+        alpha = alpha + ['b']
+    alpha = alpha[:3]
+    n = ctx.choose(list(range(0, 6)), 'len')
+    t = ''.join(ctx.choose(alpha, 'ch%d' % i) for i in range(n))
+    got = matcher.str_matcher(p).matches(t)
+    ctx.check('str_matcher(%r) on a text over %r' % (p, alpha), got == _ref_glob(p, t))
+    if p in ('wl_*_surface', 'x*x', 'a_*_b'):
+        for t2 in ('wl_surface', 'wl__surface', 'wl_x_surface', 'x', 'xx', 'a_b', 'a__b', 'a_c_b', 'wl_surface_surface'):
+            ctx.check('str_matcher(%r) on %r' % (p, t2), matcher.str_matcher(p).matches(t2) == _ref_glob(p, t2))
+
+
 def twin(ctx, case):
     expression(ctx, case)
     ctx.check('reachability twin (must be violated)', False)
@@ -328,6 +361,8 @@ def obligations(tier):
         Ob('L3-expressions', 'symx', 'parse(text) and parse(text).simplify() vs the reference denotation on symbolic messages', FUNCS, bounds3, expression,
            cases=[(i, max_args, tier) for i in range(n)], stubs=['int/float shadowed in core.matcher so that symbolic values pass through int()/float()'],
            outside='expression texts outside the enumerated family; don\'t-care regions of the denotation', budget_s=900),
+        Ob('L2-wildcards', 'symx', 'str_matcher / WildcardMatcher vs a regex-free reference glob', FUNCS[23:25], '%d patterns x all texts of <= 5 characters over the pattern\'s alphabet (exhaustive)' % len(WILD_PATTERNS),
+           wildcards, cases=WILD_PATTERNS),
         Ob('whitespace-and-brackets', 'symx', 'whitespace placement and redundant brackets do not change the parsed matcher', FUNCS[:8], '4 rewritings of each of the %d expressions' % n, variants,
            cases=[(i, tier) for i in range(n)]),
         Ob('L3-reachable', 'symx', 'reachability twin', FUNCS, '', twin, cases=[(3, max_args, tier)], expect_cex=True),
